@@ -606,11 +606,29 @@ pub fn long_title_case(code: &str, v: &Vocab, r: &mut Rng, name: String) -> Case
     Case { name, lang: code.to_string(), stream: "F-store-long-title", ops }
 }
 
+/// a typing session: a few records, then one search per keystroke while a title (or a misspelling of one of its
+/// words) is typed, then the same with another word — what a negative or positive cache keyed by prefixes would meet
+pub fn typing_case(code: &str, v: &Vocab, r: &mut Rng, name: String) -> Case {
+    let mut ops = vec![Op::New, Op::Limit(*r.pick(&[3usize, 10]))];
+    let titles: Vec<String> = (0..r.range(2, 5)).map(|_| v.title(r)).collect();
+    for (i, t) in titles.iter().enumerate() { ops.push(Op::Add(i + 1, 100 + 7 * i, t.clone())); }
+    for _ in 0..2 {
+        let t = r.pick(&titles).clone();
+        let mut q: Vec<char> = if r.chance(1, 2) { t.chars().take(14).collect() } else { query_for(v, r, &t).chars().collect() };
+        // sometimes the typo comes early: the first keystrokes then match nothing
+        if q.len() >= 4 && r.chance(1, 2) { let j = r.below(2); q.swap(j, j + 1); }
+        for k in 1..=q.len().min(12) { ops.push(Op::Search(q[..k].iter().collect())); }
+        ops.push(Op::Search(format!("{} ", q.iter().collect::<String>())));
+    }
+    Case { name, lang: code.to_string(), stream: "F-store-typing", ops }
+}
+
 pub fn store_cases(code: &str, r: &mut Rng, n: usize) -> Vec<Case> {
     let v = vocab(code);
     let mut cases = vec![];
     cases.push(long_title_case(code, &v, r, format!("long-title-{}", code)));
     for i in 0..n {
+        if i % 2 == 0 { cases.push(typing_case(code, &v, r, format!("typing-{}-{}", code, i))); }
         cases.push(relatives_case(code, &v, r, format!("relatives-{}-{}", code, i)));
         if i % 6 == 5 && i % 12 == 11 { cases.push(big_hit_case(code, r, format!("store-{}-{}", code, i))); continue; }
         let o = match i % 6 {
